@@ -212,6 +212,12 @@ def _rio_reproject(
     src, src_is_bool = _alias_or_convert(src)
     _dst, _ = _alias_or_convert(dst)
 
+    if src_is_bool:
+        # pixels were stretched [0, 1] -> [0, 255], nodata values have to follow
+        src_nodata, dst_nodata = (
+            None if v is None else (255 if v else 0) for v in (src_nodata, dst_nodata)
+        )
+
     rasterio.warp.reproject(
         src,
         _dst,
